@@ -182,6 +182,9 @@ SPECS = [
     Spec('RavelIndex', lambda a, b: ev.RavelIndex(a, b, C(3), C(4)), [S2, S2]),
     Spec('Inflate', lambda a: ev.Inflate(a, C(numpy.array([2, 0])), C(3)), [S2]),
     Spec('Inflate', lambda a: ev.Inflate(a, C(numpy.array([1, 1])), C(2)), [S2], label='Inflate/duplicate dofs'),
+    Spec('Assemble', lambda a: ev.Assemble(a, (C(numpy.array([2, 0])),), (C(3),)), [S2]),
+    Spec('Assemble', lambda a: ev.Assemble(a, (C(numpy.array([1, 1])),), (C(2),)), [S2], label='Assemble/duplicate positions'),
+    Spec('Assemble', lambda a: ev.Assemble(a, (C(numpy.array([1, 0])), C(numpy.array([0, 0]))), (C(2), C(2))), [(2, 2)], label='Assemble/two index vectors, one with repeats'),
     Spec('Einsum', lambda a, b: ev.Einsum((a, b), ((0, 1), (1,)), (0,)), [(2, 2), S2]),
     Spec('Einsum', lambda a, b: ev.Einsum((a, b), ((0,), (0,)), (0,)), [S2, S2], label='Einsum/no contraction'),
     Spec('AssertEqual', lambda a, b: ev.AssertEqual(ev.Maximum(a, ev.Minimum(a, b)), ev.Maximum(b, ev.Minimum(b, a))), [S2, S2], extra=_asserteq_extra),
